@@ -92,3 +92,76 @@ func verifCanary(label string, cond bool) {}
 //@   assigns e.verifySignature, sigCheckedKey(signature), sigCheckedLen(signature)
 //@   ensures result == nil ==> sigCheckedKey(signature) == remoteKeyOf(e) && sigCheckedLen(signature) == len(message)
 //@   ensures result != nil ==> sigCheckedKey(signature) == old(sigCheckedKey(signature)) && sigCheckedLen(signature) == old(sigCheckedLen(signature))
+
+// ---------------------------------------------------------------------------
+// C15: asymmetric algorithms -- key limits of Part 7 and the block sizes derived from the keys.
+// The table (minimum/maximum key length in bytes, RSA padding overhead, nonce length) is written here
+// from Part 7, not read off the code. (RSA-OAEP with SHA-256 has an overhead of 2*32+2 = 66 bytes; the code
+// reserves 130, i.e. uses smaller blocks than it could, which C08/C15 as stated allow: the clause is <=.)
+// ---------------------------------------------------------------------------
+
+//@ func newBasic128Rsa15Asymmetric
+//@   props C15
+//@   assigns nothing
+//@   let lsz = rsa.keySize(&localKey.PublicKey)
+//@   let rsz = rsa.keySize(remoteKey)
+//@   ensures [C15:key-limits] result1 == nil ==> (localKey == nil || (128 <= lsz && lsz <= 256)) && (remoteKey == nil || (128 <= rsz && rsz <= 256))
+//@   ensures [C15:rejects] (localKey != nil && (lsz < 128 || lsz > 256)) || (remoteKey != nil && (rsz < 128 || rsz > 256)) ==> result1 != nil && result0 == nil
+//@   ensures [C15:table] result1 == nil ==> result0 != nil && fresh(result0) &&
+//@           result0.signatureLength == ite(localKey == nil, 0, lsz) && result0.remoteSignatureLength == ite(remoteKey == nil, 0, rsz) &&
+//@           result0.blockSize == ite(remoteKey == nil, 0, rsz) && result0.plainttextBlockSize == result0.blockSize - 11 && result0.nonceLength == 16
+//@   ensures [C15:sane-lengths] result1 == nil ==> 0 <= result0.signatureLength && result0.signatureLength <= 512 &&
+//@           0 <= result0.remoteSignatureLength && result0.remoteSignatureLength <= 512
+
+//@ func newBasic256Asymmetric
+//@   props C15
+//@   assigns nothing
+//@   let lsz = rsa.keySize(&localKey.PublicKey)
+//@   let rsz = rsa.keySize(remoteKey)
+//@   ensures [C15:key-limits] result1 == nil ==> (localKey == nil || (128 <= lsz && lsz <= 256)) && (remoteKey == nil || (128 <= rsz && rsz <= 256))
+//@   ensures [C15:rejects] (localKey != nil && (lsz < 128 || lsz > 256)) || (remoteKey != nil && (rsz < 128 || rsz > 256)) ==> result1 != nil && result0 == nil
+//@   ensures [C15:table] result1 == nil ==> result0 != nil && fresh(result0) &&
+//@           result0.signatureLength == ite(localKey == nil, 0, lsz) && result0.remoteSignatureLength == ite(remoteKey == nil, 0, rsz) &&
+//@           result0.blockSize == ite(remoteKey == nil, 0, rsz) && result0.plainttextBlockSize == result0.blockSize - 42 && result0.nonceLength == 32
+//@   ensures [C15:sane-lengths] result1 == nil ==> 0 <= result0.signatureLength && result0.signatureLength <= 512 &&
+//@           0 <= result0.remoteSignatureLength && result0.remoteSignatureLength <= 512
+
+//@ func newBasic256Rsa256Asymmetric
+//@   props C15
+//@   assigns nothing
+//@   let lsz = rsa.keySize(&localKey.PublicKey)
+//@   let rsz = rsa.keySize(remoteKey)
+//@   ensures [C15:key-limits] result1 == nil ==> (localKey == nil || (256 <= lsz && lsz <= 512)) && (remoteKey == nil || (256 <= rsz && rsz <= 512))
+//@   ensures [C15:rejects] (localKey != nil && (lsz < 256 || lsz > 512)) || (remoteKey != nil && (rsz < 256 || rsz > 512)) ==> result1 != nil && result0 == nil
+//@   ensures [C15:table] result1 == nil ==> result0 != nil && fresh(result0) &&
+//@           result0.signatureLength == ite(localKey == nil, 0, lsz) && result0.remoteSignatureLength == ite(remoteKey == nil, 0, rsz) &&
+//@           result0.blockSize == ite(remoteKey == nil, 0, rsz) && result0.plainttextBlockSize == result0.blockSize - 42 && result0.nonceLength == 32
+//@   ensures [C15:sane-lengths] result1 == nil ==> 0 <= result0.signatureLength && result0.signatureLength <= 512 &&
+//@           0 <= result0.remoteSignatureLength && result0.remoteSignatureLength <= 512
+
+//@ func newAes128Sha256RsaOaepAsymmetric
+//@   props C15
+//@   assigns nothing
+//@   let lsz = rsa.keySize(&localKey.PublicKey)
+//@   let rsz = rsa.keySize(remoteKey)
+//@   ensures [C15:key-limits] result1 == nil ==> (localKey == nil || (256 <= lsz && lsz <= 512)) && (remoteKey == nil || (256 <= rsz && rsz <= 512))
+//@   ensures [C15:rejects] (localKey != nil && (lsz < 256 || lsz > 512)) || (remoteKey != nil && (rsz < 256 || rsz > 512)) ==> result1 != nil && result0 == nil
+//@   ensures [C15:table] result1 == nil ==> result0 != nil && fresh(result0) &&
+//@           result0.signatureLength == ite(localKey == nil, 0, lsz) && result0.remoteSignatureLength == ite(remoteKey == nil, 0, rsz) &&
+//@           result0.blockSize == ite(remoteKey == nil, 0, rsz) && result0.plainttextBlockSize == result0.blockSize - 42 && result0.nonceLength == 32
+//@   ensures [C15:sane-lengths] result1 == nil ==> 0 <= result0.signatureLength && result0.signatureLength <= 512 &&
+//@           0 <= result0.remoteSignatureLength && result0.remoteSignatureLength <= 512
+
+//@ func newAes256Sha256RsaPssAsymmetric
+//@   props C15
+//@   assigns nothing
+//@   let lsz = rsa.keySize(&localKey.PublicKey)
+//@   let rsz = rsa.keySize(remoteKey)
+//@   ensures [C15:key-limits] result1 == nil ==> (localKey == nil || (256 <= lsz && lsz <= 512)) && (remoteKey == nil || (256 <= rsz && rsz <= 512))
+//@   ensures [C15:rejects] (localKey != nil && (lsz < 256 || lsz > 512)) || (remoteKey != nil && (rsz < 256 || rsz > 512)) ==> result1 != nil && result0 == nil
+//@   ensures [C15:table] result1 == nil ==> result0 != nil && fresh(result0) &&
+//@           result0.signatureLength == ite(localKey == nil, 0, lsz) && result0.remoteSignatureLength == ite(remoteKey == nil, 0, rsz) &&
+//@           result0.blockSize == ite(remoteKey == nil, 0, rsz) && result0.plainttextBlockSize <= result0.blockSize - 66 && result0.nonceLength == 32
+//@   canary ensures [C15:canary-oaep-sha256-exact] result1 == nil ==> result0.plainttextBlockSize == result0.blockSize - 66
+//@   ensures [C15:sane-lengths] result1 == nil ==> 0 <= result0.signatureLength && result0.signatureLength <= 512 &&
+//@           0 <= result0.remoteSignatureLength && result0.remoteSignatureLength <= 512
